@@ -167,6 +167,13 @@ def validate_wr(chk: Check, per_class: int, props: set[str], jobs: int = 16) -> 
                 chk.violation(key, what, {"kind": "wr", "sid": c["sid"], "value": c["value"]})
 
 
+def _contexts(chk: Check) -> None:
+    """The result for (class, value) is the specified one in every context (after failed calls, under two
+    threads in the same cached codec): a compact run of the C19 machinery, see checks_registry."""
+    from .checks_registry import history_section
+    history_section(chk)
+
+
 # --------------------------------------------------------------------------- model checking
 def model_check_codec(chk: Check, cfg: str, workers: int = 16, timeout: int = 3000) -> None:
     res = tlc.run_tlc("MC_Codec", cfg=cfg, workers=workers, timeout=timeout, xmx="12g")
@@ -342,6 +349,7 @@ def check_C01(chk: Check, replay: str | None) -> None:
     thorough = chk.tier == "thorough"
     model_check_codec(chk, "MC_Codec_thorough.cfg" if thorough else "MC_Codec_quick.cfg")
     replay_universe(chk, emit_universe(chk, "MC_Codec_emit2.cfg" if thorough else "MC_Codec_emit.cfg"), {"C01"})
+    _contexts(chk)
     validate_wr(chk, 32 if thorough else 4, {"C01"})
 
 
@@ -358,6 +366,7 @@ def check_C02(chk: Check, replay: str | None) -> None:
     model_check_codec(chk, "MC_Codec_thorough.cfg" if thorough else "MC_Codec_quick.cfg")
     model_check_encoder_machine(chk)
     replay_universe(chk, emit_universe(chk, "MC_Codec_emit2.cfg" if thorough else "MC_Codec_emit.cfg"), {"C02"})
+    _contexts(chk)
     validate_wr(chk, 32 if thorough else 4, {"C02"})
 
 
@@ -474,6 +483,7 @@ def check_C03(chk: Check, replay: str | None) -> None:
     thorough = chk.tier == "thorough"
     model_check_codec(chk, "MC_Codec_thorough.cfg" if thorough else "MC_Codec_quick.cfg")
     replay_universe(chk, emit_universe(chk, "MC_Codec_emit2.cfg" if thorough else "MC_Codec_emit.cfg"), {"C03"})
+    _contexts(chk)
     validate_rw(chk, 24 if thorough else 4, {"C03"})
 
 
@@ -487,6 +497,7 @@ def check_C05(chk: Check, replay: str | None) -> None:
     thorough = chk.tier == "thorough"
     model_check_codec(chk, "MC_Codec_thorough.cfg" if thorough else "MC_Codec_quick.cfg")
     replay_universe(chk, emit_universe(chk, "MC_Codec_emit2.cfg" if thorough else "MC_Codec_emit.cfg"), {"C05"})
+    _contexts(chk)
     validate_rw(chk, 24 if thorough else 4, {"C05"})
 
 
